@@ -14,7 +14,7 @@ func init() {
 		Title: "Input framing is independent of how the network chops the stream",
 		Decided: "necessary capacity and ordering conditions only: R1 every input obtains its lines from a standard-library framing primitive applied to the whole stream, whose maximum line length is at least the documented limit (bufio.Scanner: 64 KiB token limit unless Buffer() lowers it; Reader.ReadLine with the isPrefix result discarded: the reader's size; 4 KiB for AMQP), the UDP read buffer holds a maximal datagram (65535), and the scanner keeps its default line splitter; " +
 			"R2 between obtaining a line and Dispatcher.Dispatch there is no `go` statement and the dispatch happens in the loop iteration that obtained the line; each datagram / connection is handled to completion by the goroutine that read it (no goroutine is started with the reusable read buffer).",
-		NotDecided: "chunk-invariance itself: it follows from the documented contract of bufio.Scanner / bufio.Reader over the whole stream, which is assumed, not analysed; carriage-return handling inside ScanLines.",
+		NotDecided:  "chunk-invariance itself: it follows from the documented contract of bufio.Scanner / bufio.Reader over the whole stream, which is assumed, not analysed; carriage-return handling inside ScanLines.",
 		Assumptions: []string{"bufio.Scanner with the default split function yields exactly the newline-delimited lines of its reader, however Read chops the stream (documented contract)"},
 		Rules: []RuleDef{
 			{ID: "C12.R1", Min: 3, Doc: "line capacity per input: framing API used by Plain.Handle / Amqp.consumeAMQP and its effective maximum token size; size of the UDP buffer", Run: c12r1},
@@ -78,18 +78,20 @@ func c12r1(c *Check) {
 	am := c.P.Func("input", "*Amqp", "consumeAMQP")
 	readLine, newReader = nil, nil
 	var amScanner *ssa.Call
-	allInstrs(am, func(in ssa.Instruction) {
-		if call, ok := in.(*ssa.Call); ok {
-			switch calleeName(call.Common()) {
-			case "(*bufio.Reader).ReadLine":
-				readLine = call
-			case "bufio.NewReaderSize", "bufio.NewReader":
-				newReader = call
-			case "bufio.NewScanner":
-				amScanner = call
+	for _, f := range samePkgCallees(c.P, am) {
+		allInstrs(f, func(in ssa.Instruction) {
+			if call, ok := in.(*ssa.Call); ok {
+				switch calleeName(call.Common()) {
+				case "(*bufio.Reader).ReadLine":
+					readLine = call
+				case "bufio.NewReaderSize", "bufio.NewReader":
+					newReader = call
+				case "bufio.NewScanner":
+					amScanner = call
+				}
 			}
-		}
-	})
+		})
+	}
 	cap2, how2 := int64(-1), "no framing primitive found"
 	if readLine != nil {
 		cap2, how2 = readerCapacity(readLine, newReader)
@@ -102,8 +104,22 @@ func c12r1(c *Check) {
 	if newReader != nil {
 		if mi, ok := newReader.Call.Args[0].(*ssa.MakeInterface); ok {
 			if call, ok := mi.X.(*ssa.Call); ok && calleeName(call.Common()) == "bytes.NewReader" {
-				if _, names := fieldPath(call.Call.Args[0]); len(names) > 0 && names[len(names)-1] == "Body" {
+				isBody := func(v ssa.Value) bool {
+					_, names := fieldPath(v)
+					return len(names) > 0 && names[len(names)-1] == "Body"
+				}
+				if isBody(call.Call.Args[0]) {
 					okBody = true
+				} else if par, ok := call.Call.Args[0].(*ssa.Parameter); ok {
+					// a helper that is given the body
+					if args, ok := c.P.paramArgs(par); ok {
+						okBody = true
+						for _, a := range args {
+							if !isBody(a) {
+								okBody = false
+							}
+						}
+					}
 				}
 			}
 		}
@@ -154,22 +170,26 @@ func c12r2(c *Check) {
 	for _, h := range [][3]string{{"input", "*Plain", "Handle"}, {"input", "*Amqp", "consumeAMQP"}, {"input", "*Pickle", "Handle"}} {
 		fn := c.P.Func(h[0], h[1], h[2])
 		nGo := 0
-		for _, f := range withAnons(fn) {
-			allInstrs(f, func(in ssa.Instruction) {
-				if _, ok := in.(*ssa.Go); ok {
-					nGo++
+		var disp []ssa.Instruction
+		// the read loop may live in a helper of the handler
+		for _, g := range samePkgCallees(c.P, fn) {
+			for _, f := range withAnons(g) {
+				allInstrs(f, func(in ssa.Instruction) {
+					if _, ok := in.(*ssa.Go); ok {
+						nGo++
+					}
+				})
+			}
+			allInstrs(g, func(in ssa.Instruction) {
+				if isCallNamed(in, nDispatch) {
+					disp = append(disp, in)
 				}
 			})
 		}
-		var disp []ssa.Instruction
-		allInstrs(fn, func(in ssa.Instruction) {
-			if isCallNamed(in, nDispatch) {
-				disp = append(disp, in)
-			}
-		})
-		loops := loopsOf(fn)
+		var loops []*Loop
 		okLoop := len(disp) == 1
 		if okLoop {
+			loops = loopsOf(disp[0].Parent())
 			okLoop = innermostLoop(loops, disp[0].Block()) != nil
 		}
 		c.Judge(nGo == 0 && okLoop, FuncName(fn)+" dispatches each line synchronously, once", c.AtFn(fn), "one Dispatch call site, inside the read loop, no go statement", fmt.Sprintf("%d go statements / %d dispatch sites: lines can be processed out of order, twice, or after the read buffer was reused", nGo, len(disp)))
